@@ -459,7 +459,7 @@ fn kx_m_unsplit_into_empty_self() {
     core::mem::forget(b);
 }
 
-// @ob props=C09,C01,C07,C03 tier=quick kind=Kinf fns=Buf_for_BytesMut::copy_to_bytes,BytesMut::split_to,BytesMut::freeze
+// @ob props=C09,C01,C07,C03,C18 tier=quick kind=Kinf fns=Buf_for_BytesMut::copy_to_bytes,BytesMut::split_to,BytesMut::freeze
 #[kani::proof]
 fn kx_bytes_mut_copy_to_bytes_is_split_to_freeze() {
     let (mut b, g) = any_marc();
